@@ -37,7 +37,7 @@ def corpus():
 
 
 def gen_cases(rng, tier):
-    n = 12 if tier == "quick" else 300
+    n = 12 if tier == "quick" else 50
     out = []
     for j in range(n):
         ops, slots, folders, k = [], [], ["0"], 0
